@@ -27,9 +27,11 @@ def _all_lit(t):
     return _lit(t, range(1, d + 2))
 def _quick_lit(t):
     d = dict((a, c) for a, _, c in INT_TYPES)[t]
-    if d <= 5: return _lit(t, range(1, d + 2))                    # 8/16-bit: every length 1..D+1
-    return _lit(t, sorted({1, d - 1, d, d + 1}))                  # 32/64-bit: shortest, and the three lengths around the maximum
+    if d == 3: return _lit(t, range(1, d + 2))                    # 8-bit: every length 1..D+1
+    if d == 5: return _lit(t, (1, d, d + 1))                      # 16-bit: shortest and the two lengths that reach the maximum
+    return _lit(t, (d, d + 1))                                    # 32/64-bit: the two lengths that reach the maximum
 NEG = ['neg_%s_d%02d' % (t, n) for t, _, d in INT_TYPES if t.startswith('u') for n in (1, d)]
+NEG_QUICK = ['neg_%s_d01' % t for t, _, d in INT_TYPES if t.startswith('u')]
 
 GOLIT_FULL = ['golit_i8', 'golit_u8', 'golit_i16', 'golit_u16']
 GOLIT_EDGES = ['golit_i32_edges', 'golit_i64_edges', 'golit_u32_edges', 'golit_u64_edges']
@@ -47,14 +49,17 @@ GROUPS = {
                          harnesses={'quick': ['kind_mapping', 'kind_raw_roundtrip'], 'thorough': ['kind_mapping', 'kind_raw_roundtrip']},
                          jobs={'quick': 2, 'thorough': 2}, timeout={'quick': 300, 'thorough': 300}),
     'parser-fuel': dict(crate='parser', inject={'crates/parser/src/parser.rs': _h('parser_fuel.rs')}, extra=[], mem_gb=12,
-                        harnesses={'quick': ['fuel_init', 'fuel_step'], 'thorough': ['fuel_init', 'fuel_step', 'fuel_streak']},
-                        jobs={'quick': 2, 'thorough': 3}, timeout={'quick': 600, 'thorough': 1500}),
+                        harnesses={'quick': ['fuel_init', 'fuel_step_live', 'fuel_step_dead', 'fuel_advance'], 'thorough': ['fuel_init', 'fuel_step_live', 'fuel_step_dead', 'fuel_advance']},
+                        jobs={'quick': 4, 'thorough': 4}, timeout={'quick': 600, 'thorough': 1200}),
     'compiler-c10': dict(crate='compiler', extra=['-Z', 'stubbing'], mem_gb=10,
                          inject={'crates/compiler/src/typer/check.rs': _h('compiler_check.rs'), 'crates/compiler/src/go/compile.rs': _h('compiler_golit.rs')},
-                         harnesses={'quick': sum([_quick_lit(t) for t, _, _ in INT_TYPES], []) + NEG + ['float_fits'] + GOLIT_FULL + _golit_bounded('b5') + GOLIT_EDGES
-                                             + ['golit_float_bool_unit', 'go_type_scalars'],
-                                    'thorough': sum([_all_lit(t) for t, _, _ in INT_TYPES], []) + NEG + ['float_fits'] + GOLIT_FULL + _golit_bounded('b7') + GOLIT_EDGES
-                                                + ['golit_float_bool_unit', 'go_type_scalars']},
+                         # longest first (Kani's thread pool takes the harnesses in this order)
+                         harnesses={'quick': _quick_lit('i64') + _quick_lit('u64') + ['golit_i64_edges'] + _quick_lit('i32') + _quick_lit('u32') + GOLIT_EDGES[0:1] + GOLIT_EDGES[2:]
+                                             + _golit_bounded('b5') + GOLIT_FULL + _quick_lit('i16') + _quick_lit('u16') + _quick_lit('i8') + _quick_lit('u8')
+                                             + ['golit_float_bool_unit', 'float_fits'] + NEG_QUICK + ['go_type_scalars'],
+                                    'thorough': list(reversed(_all_lit('i64'))) + list(reversed(_all_lit('u64'))) + _golit_bounded('b7') + GOLIT_EDGES
+                                                + list(reversed(_all_lit('i32'))) + list(reversed(_all_lit('u32'))) + GOLIT_FULL + _all_lit('i16') + _all_lit('u16')
+                                                + _all_lit('i8') + _all_lit('u8') + ['golit_float_bool_unit', 'float_fits'] + NEG + ['go_type_scalars']},
                          jobs={'quick': 14, 'thorough': 14}, timeout={'quick': 600, 'thorough': 1500}),
     'compiler-c15': dict(crate='compiler', extra=['-Z', 'stubbing'], mem_gb=14,
                          inject={'crates/compiler/src/artifact.rs': _h('compiler_artifact.rs')},
@@ -230,13 +235,13 @@ FUEL_FUNCS = ['parser::Parser::new', 'parser::Parser::peek', 'parser::Parser::nt
 def c04_obligations():
     return [
         _ob('O4.1-fuel', 'parser fuel: a look-ahead with fuel left returns the real next non-trivia kind and costs one unit; without fuel it returns eof and reports exactly once per streak; '
-            'advance restores 256 and clears the flag (inductive step from every reachable fuel state + initial state; thorough: also the literal 258-call streak from Parser::new)',
+            'advance restores 256 and clears the flag (inductive: initial state after Parser::new + one step from every reachable fuel state, which implies the n <= 258 streak of DESIGN O4.1 for every n)',
             'parser-fuel', GROUPS['parser-fuel']['harnesses'], FUEL_FUNCS,
-            {'quick': 'token lists of 0..3 tokens, every kind symbolic (84 kinds incl. trivia and Error); fuel state symbolic (0..256, flag); one symbolic peek/nth(0), then advance, then peek',
-             'thorough': 'as quick, plus: from Parser::new, n <= 258 consecutive look-aheads, each symbolically peek or nth(0), then advance and peek'},
+            'token lists of 0..3 tokens, every kind symbolic (84 kinds incl. trivia and Error); fuel state symbolic (0..256, flag); one symbolic peek/nth(0); advance from every state, then peek',
             assumptions=['fuel_step starts from an arbitrary state with fuel <= 256 and (flag => fuel = 0): an over-approximation of the reachable states (the flag is only set where fuel is 0)',
                          'token texts and ranges are irrelevant to the fuel mechanism (fixed text "x", empty ranges)'],
-            outside='nth(k) for k > 0 (same fuel code path, different Input walk); Parser::eof does not consult fuel (see DESIGN O4.2)', weight=5),
+            outside='nth(k) for k > 0 (same fuel code path, different Input walk); Parser::eof does not consult fuel (see DESIGN O4.2); the literal 258-call run from Parser::new '
+            '(harness fuel_streak: did not finish in 1500 s and is in no tier)', weight=5),
         _mls_ob('O4.3-mls-nopanic', 'lex_multiline_str never panics (index, overflow, char-boundary assertion of Lexer::bump) and returns within the unwinding bound -- same harnesses as O12.1'),
     ]
 
@@ -266,7 +271,7 @@ def _lit_bounds(types):
             negs = sorted(int(h[-2:]) for h in GROUPS['compiler-c10']['harnesses'][tier] if h.startswith('neg_%s_d' % t))
             if negs: out.append('%s: `-` + every digit string of length %s' % (name, ','.join(map(str, negs))))
         return '; '.join(out) + '; one harness per (type, length), digits symbolic'
-    return {'quick': b('quick') + ' [quick tier: for 32/64-bit types only lengths 1, D-1, D, D+1 to stay inside the time cap]', 'thorough': b('thorough')}
+    return {'quick': b('quick') + ' [quick tier: only the lengths around the maximum for 16/32/64-bit types, to stay inside the time cap; all lengths 1..D+1 in the thorough tier]', 'thorough': b('thorough')}
 
 def c10_obligations():
     obs = []
